@@ -81,6 +81,9 @@ def renderings(obj, is_list):
     outs.append(str(obj))
     outs.append(obj.render()["html"])
     outs.append(obj._repr_html_())
+    outs.append(repr(obj))
+    outs.append(repr([obj]))
+    outs.append(format(obj))
     # a whole document, minus what the dependencies themselves contribute to <head> (listing line and their own tags come
     # after the user's head content): charset line, user head content and everything outside <head> must not change
     import re as _re
@@ -201,6 +204,9 @@ def _check_case(ctx, base, points, makers, base_outs, route="ctor"):
         outs[4] = str(obj2)
         outs[5] = obj2.render()["html"]
         outs[6] = obj2._repr_html_()
+        outs[7] = repr(obj2)
+        outs[8] = repr([obj2])
+        outs[9] = format(obj2)
     else:
         outs = renderings(obj2, is_list)
     ctx.count("oracle.metamorphic")
@@ -247,6 +253,15 @@ def special_bases(ids):
         gen.TAG("style", {"k": "text", "s": "a{}\n\n\nb{}"}, {"k": "text", "s": "\n\n"}), gen.TAG("div", {"k": "html", "s": "<i>h</i>\r\n\r\n"}, T()),
         gen.TAG("div", {"k": "text", "s": "@@@@"}, gen.TAG("p", {"k": "text", "s": "@@@@q"}), {"k": "obj", "s": "o@@@@"}),
         {"k": "list", "t": "taglist", "c": [{"k": "text", "s": "\n\n"}, gen.TAG("div", {"k": "text", "s": "a\n\n\nb"}, T())]},
+        # visible children that are all of one kind (two or three of them), in block, inline and raw-text parents and in a list
+        gen.TAG("div", {"k": "html", "s": "h2;"}, {"k": "html", "s": "h3;"}), gen.TAG("div", {"k": "html", "s": "h4;"}, {"k": "html", "s": "h5;"}, {"k": "html", "s": "h6;"}),
+        gen.TAG("p", {"k": "obj", "s": "o3;"}, {"k": "obj", "s": "o4;"}), gen.TAG("span", {"k": "html", "s": "h7;"}, {"k": "html", "s": "h8;"}, ws=False),
+        gen.TAG("div", T(), T(), T()), gen.TAG("div", {"k": "html", "s": "h9;"}, T(), {"k": "html", "s": "h10;"}),
+        {"k": "list", "t": "taglist", "c": [{"k": "html", "s": "h11;"}, {"k": "html", "s": "h12;"}]}, {"k": "list", "t": "taglist", "c": [T(), T()]},
+        gen.TAG("script", {"k": "html", "s": "h13;"}, {"k": "html", "s": "h14;"}),
+        # children that arrive one by one through += (a bare string operand for text)
+        gen.TAG("p", T(), T(), how="iadd_each"), gen.TAG("div", T(), T(), T(), how="iadd_each"), gen.TAG("div", {"k": "html", "s": "h15;"}, T(), T(), how="iadd_each"),
+        gen.TAG("span", T(), T(), ws=False, how="iadd_each"),
     ]
 
 
